@@ -21,6 +21,8 @@ type Rec struct {
 	Attr2   string // xml: a second attribute j (two attributes: a Go map in idr.JSONify2)
 	Deep    bool   // json with Env.Deep: the record is the value of a key "n"
 	Wrap    bool   // xml/json with Env.Deep: the record sits one level deeper (inside a <batch>)
+	RootQ   bool   // xml with Env.RootNS: the record has a child <p:rq>
+	Redecl  bool   // xml with Env.RootNS: the record re-declares xmlns:p="uri://root" on itself
 	NS      string // xml: the record binds this prefix to uri://items and has a child <NS:q>
 	Fill    [3]int // multi-line fixedlength2: filler lengths at the ends of the record's lines
 	Raw     string // csv: the row as written (reader-level failures: bare quote, garbage after quote)
@@ -32,6 +34,8 @@ type Env struct {
 	Trailer bool   // edi TRL
 	Ctx     string // xml/json: value of the context element (only when Header)
 	Filter  string // flat formats: FINAL_OUTPUT.xpath used as per-record target filter (records with a = SKIPME are dropped)
+	RootNS  bool   // xml: the root declares xmlns:p="uri://root"; records have a child <p:rq> relying on it and
+	// some records redundantly re-declare the same prefix on themselves (Rec.Redecl)
 	Deep    bool   // xml/json: the stream target matches at more than one depth (//n) and the
 	// records really sit at different depths (Rec.Wrap)
 }
@@ -45,6 +49,10 @@ type Fmt struct {
 func Formats() []Fmt {
 	var out []Fmt
 	for i, f := range vh.Fixtures() {
+		if f.Format == "edi" {
+			// a repetition delimiter: an element written 300^301 becomes two element nodes of one name
+			f.Schema = strings.Replace(f.Schema, `"element_delimiter": "*",`, `"element_delimiter": "*", "repetition_delimiter": "^",`, 1)
+		}
 		out = append(out, Fmt{Idx: i, Name: f.Format, Fixture: f})
 	}
 	return out
@@ -145,6 +153,12 @@ func (f Fmt) RenderRec(r Rec) string {
 			attr += ` xmlns:` + r.NS + `="uri://items"`
 			q = "<" + r.NS + ":q>q" + xmlEsc(r.C) + "</" + r.NS + ":q>"
 		}
+		if r.Redecl {
+			attr += ` xmlns:p="uri://root"`
+		}
+		if r.RootQ {
+			q += "<p:rq>r" + xmlEsc(r.C) + "</p:rq>"
+		}
 		x := fmt.Sprintf("<n%s><a>%s</a><b>%s</b><c>%s</c>%s</n>", attr, a, xmlEsc(r.B), xmlEsc(r.C), q)
 		if r.Wrap {
 			x = "<batch>" + x + "</batch>"
@@ -179,7 +193,11 @@ func (f Fmt) Render(env Env, recs []Rec) []byte {
 			sb.WriteString("[")
 		}
 	case "xml":
-		sb.WriteString("<r>")
+		if env.RootNS {
+			sb.WriteString(`<r xmlns:p="uri://root">`)
+		} else {
+			sb.WriteString("<r>")
+		}
 		if env.Header {
 			sb.WriteString("<h>" + xmlEsc(env.Ctx) + "</h>")
 		}
@@ -275,6 +293,10 @@ func (f Fmt) WithNoise(r *vh.Rng, env Env, recs []Rec) []Rec {
 
 // Place puts a record into the envelope's layout (depth) - call after GenRec / MakeFailing.
 func (f Fmt) Place(r *vh.Rng, env Env, rec Rec) Rec {
+	if env.RootNS && f.Name == "xml" {
+		rec.RootQ = true
+		rec.Redecl = r.Chance(0.35)
+	}
 	if env.Deep && (f.Name == "xml" || f.Name == "json") {
 		rec.Deep = f.Name == "json"
 		rec.Wrap = r.Chance(0.4)
@@ -294,6 +316,9 @@ func (f Fmt) FailKindsFor() []string {
 	if f.Name == "csv" {
 		return append(append([]string(nil), FailKinds...), ReaderFailKinds...)
 	}
+	if f.Name == "edi" {
+		return append(append([]string(nil), FailKinds...), "edi-repeated-element")
+	}
 	return FailKinds
 }
 
@@ -307,6 +332,8 @@ func MakeFailing(rec Rec, kind string) Rec {
 		rec.A, rec.C = "BOOM", "BOOM"
 	case "custom-func":
 		rec.A = "FAIL"
+	case "edi-repeated-element":
+		rec.A = "300^301" // two element nodes named a: the plain-name xpath a matches twice
 	case "csv-bare-quote":
 		rec.Raw = `q"uo,1,2`
 	case "csv-garbage-after-quote":
@@ -447,6 +474,8 @@ var groups = []group{
 		`"bi": {"custom_func":{"name":"javascript","args":[{"const":"'x' + Date"},{"const":"Date"},{"xpath":"a","keep_empty_or_null":true},{"const":"Symbol"},{"const":"S"},{"const":"JSON"},{"const":"J"},{"const":"Map"},{"const":"M"}]}}`,
 		`"zglob": {"custom_func":{"name":"javascript","args":[{"const":"'g:' + Object.keys(this).sort().join()"}]}}`,
 		`"zglob2": {"custom_func":{"name":"javascript","args":[{"const":"(function(){var k=[];for(var x in this){k.push(x)};return 'g:'+k.sort().join()}).call(this)"}]}}`}, nil, ""},
+	// xml: a prefix the ROOT declares (records may redundantly re-declare it)
+	{"rootns", []string{`"rq": {"xpath":"p:rq"}`}, nil, "xml"},
 	// a script reading globals it was not passed
 	{"js-global-probe", []string{
 		`"probe": {"custom_func":{"name":"javascript","args":[{"const":"typeof discount === 'undefined' ? 0 : discount"}]}}`,
